@@ -8,6 +8,8 @@ RW = R | W
 ASAN_ENV = {
     "ASAN_OPTIONS": "abort_on_error=0:detect_leaks=0:allocator_may_return_null=1:exitcode=98:symbolize=1:detect_stack_use_after_return=0",
     "UBSAN_OPTIONS": "print_stacktrace=1:halt_on_error=1:exitcode=99",
+    "MSAN_OPTIONS": "exitcode=95:symbolize=1:halt_on_error=1",
+    "MSAN_SYMBOLIZER_PATH": "/usr/bin/llvm-symbolizer-14",
 }
 
 # CO_ERR values (CO_ERR_BASE = 0x100)
@@ -133,6 +135,11 @@ def parse_crash(text, rc):
         fn = re.search(r"#\d+ 0x[0-9a-f]+ in (\w+) (\S+)", text)
         fns = re.findall(r"#\d+ 0x[0-9a-f]+ in (\w+) \S*/src/", text)
         return "asan:%s:%s:%s" % (kind, rw.group(1) if rw else "-", fns[0] if fns else (fn.group(1) if fn else "?"))
+    m = re.search(r"WARNING: MemorySanitizer: (\S+)", text)
+    if m:
+        fns = re.findall(r"#\d+ 0x[0-9a-f]+ in (\w+) \S*/src/", text)
+        fn = re.search(r"#\d+ 0x[0-9a-f]+ in (\w+)", text)
+        return "msan:%s:%s" % (m.group(1), fns[0] if fns else (fn.group(1) if fn else "?"))
     m = re.search(r"([\w./-]+):(\d+):(\d+): runtime error: (.*)", text)
     if m:
         msg = re.sub(r"0x[0-9a-f]+", "ADDR", m.group(4))
